@@ -5,6 +5,7 @@ CONSTANTS
   Classes = {}
   LRegs = {}
   RRegs = {}
+  ScalarTs = {}
   OneStep = FALSE
   EmitOn = FALSE
 POSTCONDITION TraceAccepted
